@@ -66,6 +66,7 @@ class State:
         self.ghost = {}
         self.axioms = set()
         self.trace = []
+        self.dirty = set()      # heap fields written since the innermost enclosing loop head (checked against what that loop havocked)
 
     def copy(self):
         n = State()
@@ -78,6 +79,7 @@ class State:
         n.ghost = dict(self.ghost)
         n.axioms = set(self.axioms)
         n.trace = list(self.trace)
+        n.dirty = set(self.dirty)
         return n
 
     def assume(self, c):
@@ -242,6 +244,7 @@ class Engine:
                 # allocated by this very call
                 pre = st.alloc.get("pre:" + cls)
                 self.oblige(st, "frame", obj.ref >= pre if pre is not None else z3.BoolVal(False), k)
+        st.dirty.add(k)
         hook = self.reg.store_hooks.get(k)
         oldval = None
         if hook is not None:
@@ -693,7 +696,7 @@ class Engine:
         elif isinstance(t, ast.Starred):
             self._targets(t.value, names, fields)
 
-    def havoc_for_loop(self, st, body_stmts, extra_names=()):
+    def havoc_for_loop(self, st, body_stmts, extra_names=(), spec=None):
         names, fields, calls = self.assigned_in(body_stmts)
         names |= set(extra_names)
         for n in sorted(names):
@@ -729,8 +732,40 @@ class Engine:
             for n in ast.walk(s):
                 if isinstance(n, ast.Name) and isinstance(st.env.get(n.id), VModel):
                     mod |= set(getattr(st.env[n.id], "modifies_fields", ()))
+        mod |= set((spec or {}).get("modifies", ()))       # declared by the loop contract (operations of object models)
         for k in sorted(mod):
             self.havoc_field(st, k)
+        # allocation in the body: earlier iterations may have allocated objects of these classes and initialised their fields.  The
+        # allocation counter moves to an unknown later value and the fields are havocked *above the counter's value at loop entry*
+        # (objects that existed before the loop keep their fields unless those are in `mod` anyway).
+        alloc_classes = set((spec or {}).get("allocates", ()))
+        for call in calls:
+            if isinstance(call.func, ast.Name) and call.func.id in self.reg.classes and call.func.id not in st.env:
+                alloc_classes.add(call.func.id)
+                ic = self.reg.contracts.get(call.func.id + ".__init__")
+                if ic is not None:
+                    alloc_classes |= set(ic.extra.get("allocates", ()))
+            cc = self.resolve_contract(call, st, quiet=True)
+            if cc is not None:
+                alloc_classes |= set(cc.extra.get("allocates", ()))
+        for cls in sorted(alloc_classes):
+            a = self.alloc_bound(st, cls)
+            na = z3.Int(fresh_name("alloc_" + cls))
+            st.assume(na >= a)
+            st.alloc[cls] = na
+            for f in self.reg.classes.get(cls, {}):
+                k = "%s.%s" % (cls, f)
+                if k in mod:
+                    continue
+                n_ = z3.Int(fresh_name("n"))
+                for g in [k] + [x for x in self.reg.ghost_deps.get(k, ()) if x not in mod]:
+                    for hk, zs in self.heap_keys(g):
+                        oldarr = self.heap_arr(st, hk, zs)
+                        newarr = z3.Array(fresh_name("H_" + hk), z3.IntSort(), zs)
+                        st.assume(z3.ForAll([n_], z3.Implies(n_ < a, newarr[n_] == oldarr[n_]), patterns=[newarr[n_]]))
+                        st.heap[hk] = newarr
+                st.dirty.add(k)
+                mod.add(k)
         return names, mod
 
     def heap_keys(self, k):
@@ -746,6 +781,7 @@ class Engine:
         return [(k, s.z3sort())]
 
     def havoc_field(self, st, k):
+        st.dirty.add(k)
         for g in [k] + list(self.reg.ghost_deps.get(k, ())):
             for hk, zs in self.heap_keys(g):
                 self.heap_arr(st, hk, zs)   # make sure the pre-havoc array exists under its stable name
@@ -800,7 +836,12 @@ class Engine:
             for tag, g in implicit_inv(st):
                 self.oblige(st, "inv-init", g, "L%d.%s" % (o, tag))
         self.check_invariant(st, spec, o, "inv-init")
-        self.havoc_for_loop(st, body, extra_havoc)
+        outer_dirty = set(st.dirty)
+        _names, havocked = self.havoc_for_loop(st, body, extra_havoc, spec)
+        havocked = set(havocked)
+        for k in list(havocked):
+            havocked |= set(self.reg.ghost_deps.get(k, ()))
+        st.dirty = set()
         if implicit_inv is not None:
             for tag, g in implicit_inv(st):
                 st.assume(g)
@@ -809,6 +850,7 @@ class Engine:
         g = z3.simplify(guard(head))
         # --- exit without entering
         exit_st = head.copy()
+        exit_st.dirty = outer_dirty | havocked
         if not z3.is_true(g) and self.feasible(exit_st, z3.Not(g)):
             exit_st.assume(z3.Not(g))
             yield exit_st, (Flow.NEXT,)
@@ -821,6 +863,11 @@ class Engine:
         if pre_body:
             pre_body(body_st)
         for s1, flow in self.exec_block(body, body_st):
+            missed = {k for k in s1.dirty if k not in havocked and not self.reg.is_ghost(*k.split("."))}
+            if missed:
+                # soundness guard of the loop rule: everything the body writes must have been havocked at the loop head
+                raise Unsupported("loop %d of %s writes %s which the loop rule did not havoc" % (o, self.contract.qualname, sorted(missed)))
+            s1.dirty = s1.dirty | outer_dirty | havocked
             if flow[0] in (Flow.NEXT, Flow.CONTINUE):
                 if post_body:
                     post_body(s1)
